@@ -112,6 +112,16 @@ def aff_norm(a):
     return ('aff', terms, k)
 
 
+def add_values(x, y):
+    """x + y for abstract usize values: an affine value when both are affine, else a structural ('sum', (..))"""
+    ax, ay = to_aff(x), to_aff(y)
+    if ax is not None and ay is not None:
+        return aff_norm(aff_add(ax, ay, 1))
+    xs = x[1] if x[0] == 'sum' else (x,)
+    ys = y[1] if y[0] == 'sum' else (y,)
+    return ('sum', tuple(xs) + tuple(ys))
+
+
 def short(bid):
     s = bid
     for a in ('<', '>'):
@@ -369,6 +379,13 @@ class Interp:
                 else:
                     st.zone.add_le(hi, ms.len)
                 return ('sliceit', mid, lo, hi, path == SLICE_ITERMUT)
+            if path == 'core::iter::adapters::chain::Chain' and len(ty['args']) == 2 and depth < 6:
+                # a Chain received from outside: both halves present.  (The fused states -- a half replaced by
+                # None after it ended -- behave like a present half whose cursor is exhausted, and an unknown
+                # cursor may be exhausted: no separate entry state is needed for them.)
+                from .state import some
+                return ('adt', path, 0, tuple(some(self.mk_unknown(st, a, tag + (nm,), gs, owner_adt, depth + 1))
+                                              for nm, a in zip(('a', 'b'), ty['args'])))
             if path in ENUM_VARIANTS:
                 return ('unk', freeze(ty), tag)
             if path == RANGE:
